@@ -248,7 +248,14 @@ func zero(t types.Type) Value {
 	panic(fmt.Sprintf("zero: unexpected type %T %v", t, t))
 }
 
-type Chan struct{}
+// Chan is a channel used by a single goroutine: buffered sends and receives that
+// cannot block. Anything that would block (or a select) ends the path as unsupported.
+type Chan struct {
+	buf    []Value
+	cap    int
+	closed bool
+	elem   types.Type
+}
 
 // showVal renders a value for diagnostics.
 func showVal(v Value) string {
